@@ -1,7 +1,12 @@
+#![allow(dead_code)]
 //! verif-harness: runs the real serde-saphyr code in-process and prints canonical result lines.
 //! usage: verif-harness <area> gen --seed N --tier quick|thorough --out DIR
 mod proto;
 mod c06;
+mod c07;
+mod errs;
+mod pump;
+mod yamlgen;
 
 pub struct Args {
     pub seed: u64,
@@ -28,6 +33,8 @@ fn main() {
     }
     let code = match (argv[1].as_str(), argv[2].as_str()) {
         ("c06", m) => c06::run(m, &a),
+        ("c07", m) => c07::run(m, &a),
+        ("pump", m) => pump::run(m, &a),
         _ => { eprintln!("unknown area/mode"); 2 }
     };
     std::process::exit(code);
